@@ -3,6 +3,7 @@ package actor
 import (
 	"fmt"
 	"net/url"
+	"strings"
 
 	"github.com/kercylan98/vivid"
 	"github.com/kercylan98/vivid/internal/mailbox"
@@ -47,6 +48,12 @@ func (i *contextInitializer) initRef() error {
 	if i.ctx.parent != nil {
 		parentAddress = i.ctx.parent.address
 		path, joinPathErr = url.JoinPath(i.ctx.parent.path, path)
+		// JoinPath 会化简 "." 与 ".."：名称 "."、".."、"x/.." 会得到父级（甚至根）自身的路径并顶替其在路径表中的位置
+		// （顶替根之后 Stop 永远超时），"../x" 则会逃出父级。子 Actor 的路径必须严格位于父级路径之下
+		prefix := strings.TrimRight(i.ctx.parent.path, "/") + "/"
+		if joinPathErr == nil && (!strings.HasPrefix(path, prefix) || len(path) == len(prefix)) {
+			joinPathErr = fmt.Errorf("actor name %q does not designate a child of %s", i.ctx.options.Name, i.ctx.parent.path)
+		}
 	} else {
 		path = "/"
 	}
